@@ -632,6 +632,8 @@ func check(args []string) int {
 		"notes":                         agg.notes,
 		"bounds":                        spec.Bounds[tier],
 		"failing_cases":                 agg.violCount,
+		"programs":                      agg.cases,
+		"disagreements_checked":         agg.violCount,
 		"known_findings_observed":       len(printedKnown),
 		"workers":                       nw,
 		"instrumentation": map[string]any{
